@@ -46,7 +46,7 @@ class Failure:
     where: str          # human-readable origin(s)
     name: str = ""      # obligation name (stable key)
     rendered: str = ""
-    hint: bool = False  # the failing statement is proof text of the spec (an `assert` in a hint block or a lemma call), not a contract clause
+    hint: bool = False  # not a verdict by itself: the failing statement is proof text of the spec (an `assert` in a hint block or a lemma call), not a contract clause
 
 
 @dataclass
@@ -68,6 +68,7 @@ class UnitResult:
     canaries: dict = field(default_factory=dict)    # {"start": (n, n_failed_as_expected, [bad...]), "end": ...}
     cmd: str = ""
     dropped: list = field(default_factory=list)
+    restructured: list = field(default_factory=list)   # functions whose control skeleton differs from the recorded baseline
     rewrites: list = field(default_factory=list)
     clause_labels: list = field(default_factory=list)
     raw_stderr: str = ""
@@ -566,6 +567,23 @@ class VerusUnit:
                 name = "%s::%s@%s" % (fn_name, kind, (Lp.ofile + ":" + str(Lp.oline)) if Lp else "?")
             is_hint = bool(Lp is not None and str(Lp.ofile).startswith("specs/") and kind in ("assert", "pre"))
             res.failures.append(Failure(fn_name, kind, label, tuple(tags), msg, "; ".join(wheres), name, d.get("rendered", "")[:3000], is_hint))
+        # A proof script (loop invariants, anchored hints, the order of lemma calls) is tied to the control structure of the function
+        # it was written for. When the function's control skeleton differs from the one recorded on the unchanged tree
+        # (specs/baseline_skeletons.json), an unprovable obligation says nothing yet: the code may have been restructured without
+        # any change of behaviour. Such failures are not a verdict; the witness searchers decide.
+        try:
+            base_sk = json.load(open(os.path.join(self.root, "specs", "baseline_skeletons.json")))["skeletons"]
+        except (OSError, ValueError, KeyError):
+            base_sk = {}
+        key_ = self.unit + ("+memchr" if self.config.get("feature.memchr") else "")
+        bsk = base_sk.get(key_, {})
+        restructured = sorted(q for q, i in w.fns.items() if q in bsk and i.skeleton != bsk[q])
+        new_fns = sorted(q for q in w.fns if bsk and q not in bsk)
+        res.restructured = restructured
+        for fl in res.failures:
+            if fl.fn in restructured:
+                fl.hint = True
+                fl.message += " [the control structure of %s differs from the tree the proof was written for]" % fl.fn
         # A function that calls an auto-extracted helper for which no contract exists cannot be decided modularly: the caller's
         # obligations fail for lack of information about the helper whether or not the code is right. Such failures are not a
         # verdict (same treatment as a failed proof hint: undecided, the witness searchers get their chance).
